@@ -99,7 +99,9 @@ def complete_cases(draw):
     # become empty); `nps` is the list at the last refresh
     earlier = draw(st.lists(st.lists(st.integers(1, 999).map(str), min_size=0, max_size=4, unique=True), max_size=3))
     return dict(part="complete", nps=nps, done=done, partial=partial, junk=junk, np_idx=np_prefix_of, np_cut=np_cut,
-                pick=pick, via=draw(st.sampled_from(["helper", "helper", "inputter"])), earlier=earlier)
+                pick=pick, via=draw(st.sampled_from(["helper", "helper", "inputter"])), earlier=earlier,
+                # (readline front end) after the nameplate is committed the user edits it: extends it or replaces it
+                np_change=draw(st.sampled_from([None, None, "extend", "other"])))
 
 
 @st.composite
@@ -306,13 +308,30 @@ def run_complete(c, res):
             ci = _rlcompleter.CodeInputter(h, W.clock)
             ci.bcft = lambda f, *a, **kw: f(*a, **kw)
 
+            typed_np = [target_np]
+            committed = [False]
+            refused = [0]
+
             def get(text):
                 # first call commits to the nameplate; the wordlist arrives with `claimed`
-                r = ci._commit_and_build_completions(target_np + "-" + text)
-                W.settle(max_steps=300)
-                r = ci._commit_and_build_completions(target_np + "-" + text)
-                return [x[len(target_np) + 1:] for x in r if x.startswith(target_np + "-")] + \
-                       [x for x in r if not x.startswith(target_np + "-")]
+                if not committed[0]:
+                    ci._commit_and_build_completions(target_np + "-" + text)
+                    W.settle(max_steps=300)
+                    committed[0] = True
+                    if c.get("np_change") == "extend":
+                        typed_np[0] = target_np + "2"
+                    elif c.get("np_change") == "other":
+                        typed_np[0] = "9" + target_np
+                np_ = typed_np[0]
+                try:
+                    r = ci._commit_and_build_completions(np_ + "-" + text)
+                except WormholeError as ex:
+                    # "cannot go back": the committed nameplate was edited
+                    refused[0] += 1
+                    res.notes["completer_refused:" + type(ex).__name__] += 1
+                    return []
+                return [x[len(np_) + 1:] for x in r if x.startswith(np_ + "-")] + \
+                       [x for x in r if not x.startswith(np_ + "-")]
             prefix_for = lambda text: text                            # noqa: E731
         text = typed_words
         rounds = 0
@@ -343,13 +362,15 @@ def run_complete(c, res):
                 if c["via"] == "helper":
                     h.choose_words(final)
                 else:
-                    ci.finish(target_np + "-" + final)
+                    entered_np = typed_np[0]
+                    ci.finish(entered_np + "-" + final)
             except WormholeError as ex:
                 res.notes["finish_rejected:" + type(ex).__name__] += 1
             W.settle(max_steps=300)
             codes = [e[1] for e in dg.ev if e[0] == "code"]
-            if codes and codes[0] != target_np + "-" + final:
-                res.violate("complete", "entered %r but the wormhole reports code %r" % (target_np + "-" + final, codes[0]),
+            entered = (typed_np[0] if c["via"] != "helper" else target_np) + "-" + final
+            if codes and codes[0] != entered:
+                res.violate("complete", "entered %r but the wormhole reports code %r" % (entered, codes[0]),
                             input_class="code-differs-from-entered")
         res.notes["completion_rounds"] += rounds
         try:
